@@ -1,0 +1,11 @@
+//go:build verif
+
+// Contracts for package kauri, checked by /verif/govc (comment-only file).
+package kauri
+
+// Two contributions may be merged exactly when both are present and no replica signed both.
+//@ func CanMergeContributions property C09
+//@   ensures [nil-means-disjoint] result == nil ==> a != nil && b != nil && (forall x hotstuff.ID :: {hotstuff.setmem(hotstuff.parts(a), x)} hotstuff.setmem(hotstuff.parts(a), x) ==> !hotstuff.setmem(hotstuff.parts(b), x))
+//@   ensures [error-means-overlap-or-absent] result != nil ==> a == nil || b == nil || (exists x hotstuff.ID :: {hotstuff.setmem(hotstuff.parts(a), x)} hotstuff.setmem(hotstuff.parts(a), x) && hotstuff.setmem(hotstuff.parts(b), x))
+//@   loop iter0 invariant [no-overlap-so-far] *canMerge && (forall x hotstuff.ID :: {visited(iter0, x)} visited(iter0, x) ==> !hotstuff.setmem(hotstuff.parts(b), x))
+//@   modifies alloc
